@@ -58,6 +58,8 @@ func runC06(r *Report) {
 	r.Rule("C06/json-typestate", "separator discipline: embedded members only where nothing was emitted before; forced comma only after a member type that always emits")
 	r.Rule("C06/json-quoting", "constant keys are JSON-safe; non-constant keys (additionalProperties) pass through a JSON quoting function")
 	r.Rule("C06/oneof-arms", "every discriminator value the schema maps (explicitly or by schema name) has a decoding arm, so every value the encoder can emit for a variant can be decoded back")
+	r.Rule("C06/keys-consumed", "every key a reader looks up is deleted from the shared raw map before any later additionalProperties collector (own or of an allOf member decoded afterwards from the same map) ranges over it")
+	r.Rule("C06/time-layout", "date-time properties are formatted and parsed with time.RFC3339Nano (lossless for every time.Time instant) unless x-goag-go-time-format names another layout; writer layout = reader layout")
 	r.Rule("C06/codec-agreement", "writer key table = reader key table (key, field, required/optional, IsSet, null, embedded order, additionalProperties)")
 	r.Assumptions = append(r.Assumptions,
 		"NOT decided: equality of values after a round trip (number formatting, time zones, RawMessage normalisation, nil vs empty collections) and everything delegated to encoding/json",
@@ -249,9 +251,24 @@ func runC06(r *Report) {
 				if w.Optional && !rd.SetsIsSet {
 					ag = append(ag, fmt.Sprintf("key %q: optional property decoded without marking it set (IsSet): a present value decodes to unset", w.Key))
 				}
+				if strings.Join(uniq(sortedCopy(w.Layouts)), ",") != strings.Join(uniq(sortedCopy(rd.Layouts)), ",") {
+					ag = append(ag, fmt.Sprintf("key %q: written with time layout %v but parsed with %v", w.Key, w.Layouts, rd.Layouts))
+				}
+				if _, _, nullable := unwrapWrappers(w.Field.Type()); nullable && !w.NilSliceFix {
+					if _, isSlice := unwrapInner(w.Field.Type()).(*types.Slice); isSlice {
+						ag = append(ag, fmt.Sprintf("key %q: a set nullable array holding a nil slice is written as null (no nil-slice normalisation), which the reader takes as the null state: the value decodes to unset", w.Key))
+					}
+				}
 				if w.NullCapable != rd.NullTest {
 					ag = append(ag, fmt.Sprintf("key %q: writer can emit null=%v but reader accepts null as unset-nullable=%v", w.Key, w.NullCapable, rd.NullTest))
 				}
+			}
+			// keys consumed: the raw map is shared with every embedded member's reader and
+			// with the additionalProperties collector
+			if leaked := leakedKeys(jp.Objects, o, 0); len(leaked) > 0 {
+				r.Violation("C06/keys-consumed", key, pos, "keys "+strings.Join(leaked, ", ")+" are still in the shared raw map when a later additionalProperties collector (of this type or of an allOf member) ranges over it: decode(encode(v)) gains map entries v did not have")
+			} else {
+				r.OK("C06/keys-consumed", key, pos, "")
 			}
 			if len(ag) > 0 {
 				sort.Strings(ag)
@@ -267,6 +284,61 @@ func runC06(r *Report) {
 	}
 	r.Analysed["object_codecs"] = nObj
 	r.FloorMin("object codecs analysed", nObj, 60)
+}
+
+// readerEvents flattens the reader of o (through embedded delegation, which
+// passes the same raw map) into the order in which keys are looked up and
+// leftovers are collected.
+type readerEvent struct {
+	key     string // "" for a collector
+	deletes bool
+	owner   string
+}
+
+func readerEvents(objs map[string]*JSONObject, o *JSONObject, depth int) []readerEvent {
+	var out []readerEvent
+	if depth > 8 {
+		return out
+	}
+	for _, rd := range o.Reader {
+		switch rd.Kind {
+		case "prop":
+			out = append(out, readerEvent{key: rd.Key, deletes: rd.Deletes, owner: o.Type.Obj().Name()})
+		case "additional":
+			out = append(out, readerEvent{owner: o.Type.Obj().Name()})
+		case "embedded":
+			if rd.Field != nil {
+				if n, ok := derefNamed(rd.Field.Type()); ok {
+					if eo := objs[n.Obj().Name()]; eo != nil {
+						out = append(out, readerEvents(objs, eo, depth+1)...)
+					}
+				}
+			}
+		}
+	}
+	return out
+}
+
+func leakedKeys(objs map[string]*JSONObject, o *JSONObject, depth int) []string {
+	ev := readerEvents(objs, o, depth)
+	var pending, leaked []string
+	for _, e := range ev {
+		if e.key != "" {
+			if !e.deletes {
+				pending = append(pending, fmt.Sprintf("%q (%s)", e.key, e.owner))
+			}
+			continue
+		}
+		leaked = append(leaked, pending...)
+		pending = nil
+	}
+	return uniq(leaked)
+}
+
+func sortedCopy(ss []string) []string {
+	out := append([]string{}, ss...)
+	sort.Strings(out)
+	return out
 }
 
 // ---------------------------------------------------------------------------
@@ -439,6 +511,39 @@ func (w *shapeWalker) object(t types.Type, s *openapi3.Schema, key, where string
 		for _, wr := range o.Writer {
 			switch wr.Kind {
 			case "prop":
+				if ps := os.props[wr.Key]; ps != nil && ps.Value != nil {
+					leaf := ps.Value
+					for leaf.Type == "array" && leaf.Items != nil && leaf.Items.Value != nil && !isCustom(leaf) {
+						leaf = leaf.Items.Value
+					}
+					if leaf.Type == "string" && leaf.Format == "date-time" && !isCustom(leaf) && !isCustom(ps.Value) {
+						want := rfc3339NanoLit
+						if f := extString(leaf, "x-goag-go-time-format"); f != "" {
+							want = timeLayoutLit(f)
+						}
+						var rl []string
+						for _, rd := range o.Reader {
+							if rd.Kind == "prop" && rd.Key == wr.Key {
+								rl = rd.Layouts
+							}
+						}
+						bad := len(wr.Layouts) == 0 || len(rl) == 0
+						for _, l := range append(append([]string{}, wr.Layouts...), rl...) {
+							if l != want {
+								bad = true
+							}
+						}
+						k := key + "." + wr.Key + " (" + n.Obj().Name() + ")"
+						if _, isNamed := derefNamed(unwrapInner(wr.Field.Type())); (isNamed || ps.Value.Type == "array") && len(wr.Layouts) == 0 && len(rl) == 0 {
+							// delegated to a component type's own codec (judged there) or, for []time.Time,
+							// to encoding/json's time.Time codec, which is RFC3339Nano
+						} else if bad {
+							w.r.Violation("C06/time-layout", k, w.s3.pos(wr.Pos), fmt.Sprintf("date-time property %q is formatted with %v and parsed with %v; the schema demands %s — a coarser layout drops the sub-second part, so decode(encode(v)) != v", wr.Key, wr.Layouts, rl, want))
+						} else {
+							w.r.OK("C06/time-layout", k, w.s3.pos(wr.Pos), want)
+						}
+					}
+				}
 				w.visit(wr.Field.Type(), os.props[wr.Key], where+"."+wr.Key)
 			}
 		}
